@@ -200,7 +200,8 @@ func main() {
 	count := flag.Int("n", 600, "number of generated cases (half writers: wp/wl/wc evenly, half readers)")
 	big := flag.Int("big", 0, "additional writer cases with one value above 64 KiB")
 	holes := flag.Bool("holes", true, "generate v1 wrappers whose inner offsets have holes")
-	flag.StringVar(&only, "only", "", "print only the cases of this op (wp, wl, wc, rd)")
+	pg := flag.Int("pg", 40, "number of page-buffer operation sequences (pg), followed by 2 concurrent cases (pgc)")
+	flag.StringVar(&only, "only", "", "print only the cases of this op (wp, wl, wc, rd, pg, pgc)")
 	flag.Parse()
 	r := rand.New(rand.NewSource(*seed))
 	out = bufio.NewWriterSize(os.Stdout, 1<<20)
@@ -208,4 +209,5 @@ func main() {
 
 	writerCases(r, *count/2, *big)
 	readerCases(r, *count-*count/2, *holes)
+	pageCases(r, *pg) // after all other cases: their ids do not change
 }
